@@ -938,6 +938,10 @@ func (s *AbsfsNFS) Export(mountPath string, port int) error {
 		ReadOnly: s.policy.Load().ReadOnly,
 		Port:     port,
 		Hostname: "localhost",
+		// Standard NFS clients frame every RPC message over TCP with
+		// record marking (RFC 1831 section 10); without it the quick-start
+		// server cannot be mounted.
+		UseRecordMarking: true,
 	})
 	if err != nil {
 		return err
